@@ -104,7 +104,7 @@ def _(c):
         return z3.And(args[1] == s.self.verify_openpgp)
     c.site('load-uses-the-loader-openpgp-setting', 'm.load', loads_with_loader_settings, props=['C05'])
 
-    c.exc_ensures('mismatch-only-if-an-entry-was-given', 'ManifestMismatch', lambda s: z3.Not(s.verify_entry.is_none))
+    c.exc_ensures('mismatch-only-if-an-entry-was-given', 'ManifestMismatch', lambda s: z3.Not(s.opt('verify_entry').is_none))
 
 
 def _sort_tag(t):
